@@ -91,11 +91,12 @@ def construct (args : List Arr) : World :=
     memo := []
     handed := List.range args.length }
 
-/-- a constructor that keeps the caller's `j`-th array instead of copying it (the mutant
-`np.array(weights, copy=False)`): the caller's reference is a root of the matrix -/
-def constructKeeping (j : Nat) (args : List Arr) : World :=
+/-- a constructor that keeps the caller's arrays `keep` instead of copying them (the mutant
+`np.array(weights, copy=False)`; `mkdm` before the repair kept the label arrays): those references of the
+caller are roots of the matrix -/
+def constructKeeping (keep : List Nat) (args : List Arr) : World :=
   let w := construct args
-  { w with internal := w.internal.map fun r => if r = j + args.length then j else r }
+  { w with internal := w.internal.map fun r => if (r - args.length) ∈ keep then r - args.length else r }
 
 /-- separation + allocation + memo consistency -/
 structure Inv (T : Table) (w : World) : Prop where
